@@ -53,9 +53,11 @@ PLAN = {
     "C08": {
         "quick": [
             {"kind": "rapid", "test": "TestC08Compose", "checks": 40000},
+            {"kind": "rapid", "test": "TestC08Lines", "checks": 40000},
         ],
         "thorough": [
             {"kind": "rapid", "test": "TestC08Compose", "checks": 150000, "shards": 16},
+            {"kind": "rapid", "test": "TestC08Lines", "checks": 400000, "shards": 8},
         ],
     },
     "C15": {
@@ -203,7 +205,7 @@ RULES = {
     "C05": "rapid: route (Sprintf, Fprintf, Sprint, Fprint, StringBuilder.Printf, SafePrinter.Printf) x 1-3 directives with flags/width/precision and a verb valid for its operand class (string verbs v s q x X, integer verbs v d b o O x X c q U, float verbs, bool verbs) x operands that are leaves or containers of leaves to depth 2 ([]interface{}, [2]interface{}, struct with interface fields, single-entry map[interface{}]interface{} incl. its key) x configuration (every subset of the registrable pool, registry reset per case through the hook). Leaves: plain and named basic kinds, named kinds with String/Error methods, SafeString/SafeInt/SafeUint/SafeFloat, SafeValue-marked kinds, registrable kinds, Safe(x), Unsafe(x), untyped nil, scripted SafeFormatters (flagless directives). Oracle: fmt renders the same shape with every leaf inside an extent wrapper (sentinel + fmt.FormatString forwarding); from it T (full text) and S (unsafe extents reduced to their line feeds) are read off, and strip(out) == esc(T), delEnv(out) == esc(S). Non-trivial = at least one safe and one unsafe leaf and (nesting or a flag/width/precision/non-v verb). Distinct = distinct specs (64-bit fingerprint). Leaves are also placed in reflect.Value operands (made from the value, or designating an interface-typed slot); the builtin types string and int are registered in one case in eight each. C05Join: JoinTo over []string, []int, []interface{}, named-string, error and registered-type slices and arrays on a StringBuilder and on a SafePrinter (after 0-2 prior writes), under all subsets of registered types incl. builtin string/int, compared with Print of each element (non-trivial = at least 2 elements and a registered type). C05Typed: two leaves (plain, named, registered, SafeValue-marked, wrapper, Stringer/error kinds) in a slice, array, map, struct or pointed-to struct whose slots have the leaves' own types and in the same container with interface-typed slots, under a generated directive without # and all subsets of registered types: both must print alike (non-trivial = a leaf is declared safe).",
     "C06": "rapid: x from the full value universe (1/2 of the cases) or the fmt-compatible one, including scripted Formatters that discover the SafePrinter behind their fmt.State and scripted SafeFormatters, both calling back through Print/Printf/Safe*/Unsafe*/Write with recursive operands, SafeValues, registered types, library-produced RedactableStrings, errors with an error hook installed; a directive without '*'; a wrapper chain W1(W2(W3(x))) of length 1-3; placed at top level, in a []interface{}, in an exported struct field or as a map value. Oracle: N - the chain prints exactly like W1(x); U1 - under an outermost Unsafe nothing of the rendering is outside envelopes (only the container's brackets and line feeds); U2 - at top level, for fmt-compatible x, the stripped text is what fmt prints for x; S1 - under an outermost Safe, for fmt-compatible x without classification of its own, no envelope and exactly fmt's characters (top level and in a slice); H - with a hook installed Unsafe(err) prints as without and the hook is not called. Non-trivial = x is itself classified (SafeValue, Safe-wrapped, registered, redactable, SafeFormatter, hooked error) or its method re-enters the printer. Distinct = distinct specs (64-bit fingerprint). Further placements: the wrapper inside a reflect.Value operand (made from it, or designating an interface-typed slot: Elem of a pointer to an interface, struct field, slice element), which must print like each other and, for pointer- and reflect.Value-free x, like fmt prints x as a slice element. One case in eight is a formatter that discovers the SafePrinter and makes a nested Printf with a missing operand, a bad argument index or an extra operand.",
     "C17": "rapid: configuration (hook installed with probability 0.9: a scripted function over the SafeWriter-op universe that can also emit the verb and err.Error(); registered safe types) x error values (value/pointer/errors.New/named-kind errors, wrapping, nil-receiver, error+Stringer, error+Formatter, error+SafeFormatter, error+SafeMessager) x positions (top level under every verb and flag incl. invalid and non-ASCII verbs, %T/%p, the %w of HelperForErrorf, []interface{}, []error, map values, exported and unexported struct fields, pointer to struct, arrays, reflect.Value, under Safe(), under Unsafe()) x routes (Sprint, Sprintf, Fprintf, HelperForErrorf). Oracle: output with the hook == output of the same shape with every dispatched error replaced by an error+SafeFormatter stand-in whose SafeFormat runs the hook's script (both shapes share all other objects); the hook is not called in the stand-in run (i.e. never for SafeFormatter/SafeMessager errors, %T/%p, unexported fields, under Unsafe()); the multiset of (error, verb) hook calls equals the stand-in's SafeFormat calls and their number equals the number of dispatched positions; Unsafe(err) prints as without hook and fully enveloped. Non-trivial = hook installed, at least one dispatched error, and not bare top-level %v. Distinct = distinct specs (64-bit fingerprint). A sixth of the hooks panics after its partial output (the stand-in then panics in SafeFormat; the two report names are identified); hooks may print the error's cause through the printer ('Cause' op: the hook is re-entered for it, chains of value-type uncomparable wrapping errors included) and operands of their own that are not errors, including ones whose methods panic. Error kinds also include byte-kinded errors alone and as the elements of a typed slice (a byte string under s/q/x/X: not dispatched there), named slice types whose nil value makes Error panic, and errors that are GoStringers.",
-    "C08": "rapid: histories of 1-6 steps starting from a library-produced redactable r0 (Sprint/Sprintf of generated operands: envelopes, line feeds, escaped markers, empty); each step applies one of 31 re-print / join / container compositions (Sprint, Sprint of ToBytes, Sprintf with literals around any directive except %T/%p incl. flags, width, precision, '*', odd verbs; reflect.ValueOf; Safe(); Join/JoinTo with safe or unsafe delimiters on a builder and on a SafePrinter; StringBuilder.Print/Printf; printing a StringBuilder by value and by pointer; SafePrinter.Print/Printf; []RedactableString, [2]RedactableString, []interface{}, map values, struct fields exported / unexported / interface-typed, pointer to struct, %+v, %#v) and the result becomes the next r. Oracle per step: the result equals the literal concatenation of its pieces (identity for re-printing), and Redact / StripMarkers applied to the result equal the concatenation of their application to the pieces. Non-trivial = the redactable contains an envelope, an escaped marker or a line feed and the step is not bare %v/Sprint. Distinct = distinct specs (64-bit fingerprint).",
+    "C08": "rapid: histories of 1-6 steps starting from a library-produced redactable r0 (Sprint/Sprintf of generated operands: envelopes, line feeds, escaped markers, empty); each step applies one of 31 re-print / join / container compositions (Sprint, Sprint of ToBytes, Sprintf with literals around any directive except %T/%p incl. flags, width, precision, '*', odd verbs; reflect.ValueOf; Safe(); Join/JoinTo with safe or unsafe delimiters on a builder and on a SafePrinter; StringBuilder.Print/Printf; printing a StringBuilder by value and by pointer; SafePrinter.Print/Printf; []RedactableString, [2]RedactableString, []interface{}, map values, struct fields exported / unexported / interface-typed, pointer to struct, %+v, %#v) and the result becomes the next r. Oracle per step: the result equals the literal concatenation of its pieces (identity for re-printing), and Redact / StripMarkers applied to the result equal the concatenation of their application to the pieces. Non-trivial = the redactable contains an envelope, an escaped marker or a line feed and the step is not bare %v/Sprint. Distinct = distinct specs (64-bit fingerprint). C08Lines: a payload over the byte alphabet with 1-4 line feeds (half of the lines end in a truncated multi-byte sequence) is printed as unsafe or safe text; every line of the output (a redactable of its own by C03) is printed again followed by an unsafe operand, by safe text, or by the other lines (Sprint, Sprintf, StringBuilder, Join with safe and unsafe delimiters), where what follows starts with bytes that could complete a marker: the result must be well-formed and line-safe and nothing of an unsafe operand may be outside envelopes (non-trivial = several lines and marker bytes in the payload).",
     "C15": "rapid: structured formats with 0-4 directives, each %w with probability 1/2 (flags, width, precision, '*'), operands at %w positions drawn from {error value, pointer error, errors.New, named-kind errors, wrapping error, nil-receiver error, error+Stringer, error+SafeFormatter, error+SafeMessager, Safe(err), Unsafe(err), untyped nil, string, int, Stringer, struct, missing}; other operands from the full or the fmt-compatible universe; optional error hook. Oracle: (E) returned error by the statement (sequential model: the first %w with an error operand is captured, any misuse clears it for good); (T1) no %w => text == Sprintf; (T2) text == per-directive Sprintf with the correct %w printed as %v and every other %w as the bad-verb report; (T3) for at most one %w and fmt-compatible operands: stripped text == fmt.Errorf(...).Error() escaped and error == errors.Unwrap. Non-trivial = at least one %w. Distinct = distinct specs (64-bit fingerprint).",
     "C16": "rapid: an argument list (full value universe, registered types, optional error hook) with a structured or chaotic format, printed through Sprint/Sprintf (reference), Fprint/Fprintf into a recording writer that succeeds, fails or writes short, HelperForErrorf (formats without %w), and embedded between 0-5 generated prefix and 0-4 suffix writer ops on a StringBuilder, on the SafePrinter of Sprintfn and on the SafePrinter of a SafeFormat method. Oracle: F variant = exactly one Write with the S variant's bytes and (n, err) as returned by the writer; embedded routes equal prefix-alone + S variant + suffix-alone after merging adjacent envelopes. Non-trivial = at least two operands or a non-basic operand, and the prefix leaves an envelope open or unescaped bytes pending in the outer buffer (observed through the hook). Distinct = distinct specs (64-bit fingerprint). The SafeFormat route is also taken under %8v %-6.1v %#v %+v %08.3v '% x' %q when prefix and suffix have no SafeInt/SafeUint/SafeFloat.",
     "C11": "enumeration: all 2048 surrogates plus negative / out-of-range / boundary runes x every rune-taking method x 5 buffer-state classes (empty, open envelope, after safe text, after pre-redactable text, pending partial UTF-8) x 4 implementations; rapid: (a) histories prefix + one edge call (any int32 rune, any byte 0..255, arbitrary byte strings) + suffix on StringBuilder, ManualBuffer, Sprintfn and SafeFormat printers: no panic, line-safe, text before and after intact; (b) JoinTo with non-slice operands of 25 kinds (int, nil, string, array, map, pointer, chan, func, struct, typed nils, wrappers): no panic, output = printing the value as-is; (c) print cases over all routes / full universe / chaotic formats / configurations: a panic may escape only if a panic is raised while printing a panic payload; (d) a method panicking (String, Error, GoString, SafeMessage, Format, SafeFormat, error hook; after 0-4 ops of partial output; payload string/error/SafeString/int/nested panicker; top level, under Unsafe(), inside a slice) between generated text: the output must equal text-before + partial output + %!verb(PANIC=<method> method: <payload>) + text-after. Non-trivial = an edge value, a non-slice operand, a chaotic format, nil operand or a panicking method is involved. Distinct = distinct specs (64-bit fingerprint). Panic cases also check StringWithoutMarkers against Sprint for SafeFormatter operands.",
@@ -258,13 +260,13 @@ CLAIMS = {
         "technique": "rapid property-based differential testing against a reference construction (stand-in SafeFormatter) with call-log invariants, per configuration",
     },
     "C08": {
-        "text": "Inductive closure under composition is checked on generated histories of print-then-reprint / join / embed steps over library-produced redactables: every step must be the literal concatenation of its pieces (identity for plain re-printing under any directive), and Redact/StripMarkers must distribute over it. Exploration; 40k histories per quick run, 2.4M per thorough run.",
+        "text": "Inductive closure under composition is checked on generated histories of print-then-reprint / join / embed steps over library-produced redactables: every step must be the literal concatenation of its pieces (identity for plain re-printing under any directive), and Redact/StripMarkers must distribute over it. Exploration; 40k histories per quick run, 2.4M per thorough run. Found and repaired F16 (a line of an earlier output, printed again, ran into what follows it).",
         "design_ref": "DESIGN.md §4.8",
         "note": "Container expectations for %v/%+v come from a hand model of fmt's brackets, spaces and field names; for %#v only containment and the distribution laws are claimed. %T/%p are excluded as the property says; %w is excluded for StringBuilder operands (a builder is not an error).",
         "technique": "rapid property-based testing over generated composition histories; round-trip identity and concatenation/homomorphism laws",
     },
     "C15": {
-        "text": "Generated formats with several %w and every operand class at the %w positions, judged by an executable reading of the statement (sequential capture model), by composition over Sprintf and by a differential against fmt.Errorf + errors.Unwrap. Exploration; found and repaired F7 (misuse through operands that bypass method dispatch).",
+        "text": "Generated formats with several %w and every operand class at the %w positions, judged by an executable reading of the statement (sequential capture model), by composition over Sprintf and by a differential against fmt.Errorf + errors.Unwrap. Exploration; found and repaired F7 (misuse through operands that bypass method dispatch). Found and repaired F7 and F17 (%w misuse that bypasses method dispatch).",
         "design_ref": "DESIGN.md §4.15",
         "note": "'#' and '+' on a %w directive are excluded from the 'renders like %v' clause (fmt itself rewrites these flags only for a literal %v); RedactableString operands at %w positions are outside the domain (C08 says they print unchanged under any verb).",
         "technique": "rapid property-based testing: statement model + composition over Sprintf + differential against fmt.Errorf",
